@@ -254,7 +254,7 @@ theorem getElem?_idxOf {l : List Msg} {m : Msg} (h : m ∈ l) : l[l.idxOf m]? = 
   rw [List.getElem?_eq_getElem hlt, List.getElem_idxOf hlt]
 
 theorem run_deliverEvs (ds : List Msg) : ∀ (c : Cluster) (j : Nat) (s : Shard),
-    c.nodes[j]? = some s → (∀ m ∈ ds, m ∈ c.sent ∧ m.origin ≠ j) →
+    c.nodes[j]? = some s → (∀ m ∈ ds, m ∈ c.sent) →
     c.run (deliverEvs c.sent j ds) =
       { nodes := c.nodes.set j (MCluster.applyAll s ds)
         sent := c.sent
@@ -280,8 +280,7 @@ theorem run_deliverEvs (ds : List Msg) : ∀ (c : Cluster) (j : Nat) (s : Shard)
     have hstep : c.step (.deliver j (c.sent.idxOf d)) =
         { c with nodes := c.nodes.set j (Shard.applyRemote s d.key d.val)
                  log := c.log ++ [⟨j, d.key, d.val⟩] } := by
-      simp only [Cluster.step, hs, getElem?_idxOf hd.1]
-      rw [if_neg hd.2]
+      simp only [Cluster.step, hs, getElem?_idxOf hd]
     simp only [deliverEvs, List.map_cons, Cluster.run, List.foldl_cons]
     rw [hstep]
     have hjlt : j < c.nodes.length := (List.getElem?_eq_some_iff.mp hs).1
